@@ -443,6 +443,7 @@ func plans(thorough bool) []plan {
 }
 
 func main() {
+	explore.BeforeExec = []func(){cdi.VerifResetGlobals}
 	for i, a := range os.Args {
 		if a == "-worker" {
 			debug.SetGCPercent(800)
